@@ -54,10 +54,54 @@ type c04Case struct {
 	// SizeLimitSlack > 0 loads the image with a per-file byte limit of (largest file size +
 	// SizeLimitSlack): every file is below the limit, so the limit must change nothing.
 	SizeLimitSlack int `json:"size_limit_slack,omitempty"`
+	// SizeLimit > 0 loads the image (and configures the unpacker) with exactly this per-file
+	// byte limit; regular files with at least that many bytes are dropped by the loader
+	// (documented: "larger files are ignored"). The generator only puts such files at paths
+	// that no other entry of the image touches.
+	SizeLimit int `json:"size_limit,omitempty"`
+}
+
+// dropped reports whether the loader legitimately leaves the entry out of every view: a
+// symlink whose target leaves the image root (fail-open skip, C17's "not followed"), or a
+// regular file at or above the configured per-file limit.
+func (cs c04Case) dropped(e tarimg.Entry) bool {
+	switch e.Kind {
+	case tarimg.KindSymlink:
+		if op := overlay.Interpret(e); op.Kind == overlay.OpPut {
+			_, esc := overlay.LinkTarget(op.Path, e.Target)
+			return esc
+		}
+	case tarimg.KindFile:
+		return cs.SizeLimit > 0 && len(e.Content) >= cs.SizeLimit
+	}
+	return false
+}
+
+// effective returns the case without the entries the loader drops (what the views must
+// contain at least); hasDropped says whether anything was removed.
+func (cs c04Case) effective() (c04Case, bool) {
+	out := cs
+	out.Image.Layers = make([]tarimg.Layer, len(cs.Image.Layers))
+	any := false
+	for i, l := range cs.Image.Layers {
+		nl := tarimg.Layer{Format: l.Format}
+		for _, e := range l.Entries {
+			if cs.dropped(e) {
+				any = true
+				continue
+			}
+			nl.Entries = append(nl.Entries, e)
+		}
+		out.Image.Layers[i] = nl
+	}
+	return out, any
 }
 
 // maxFileBytes returns the per-file byte limit of the case (0 = default).
 func (cs c04Case) maxFileBytes() int64 {
+	if cs.SizeLimit > 0 {
+		return int64(cs.SizeLimit)
+	}
 	if cs.SizeLimitSlack <= 0 {
 		return 0
 	}
@@ -115,6 +159,7 @@ func c04UnlinkedFiles(cs c04Case) []string {
 	if !cs.UseRequirer {
 		return nil
 	}
+	cs, _ = cs.effective()
 	set := map[string]bool{}
 	for _, r := range cs.Require {
 		set[r] = true
@@ -145,6 +190,10 @@ func c04UnlinkedFiles(cs c04Case) []string {
 // reference model alone.
 func c04Features(cs c04Case) (finding map[string]bool, labels map[string]bool, affectsLower bool) {
 	finding, labels = map[string]bool{}, map[string]bool{}
+	// shapes of loader-dropped entries (labels only), then everything else is computed on the
+	// image as the loader sees it: a dropped entry contributes nothing
+	c04DroppedLabels(cs, labels)
+	cs, _ = cs.effective()
 	views := overlay.Views(cs.Image.Layers)
 	// removedAt[P] = true once P (a directory with children) was removed by a later layer.
 	removedDirs := map[string]int{}
@@ -384,6 +433,80 @@ func c04Features(cs c04Case) (finding map[string]bool, labels map[string]bool, a
 	return finding, labels, affectsLower
 }
 
+// c04DroppedLabels counts the shapes in which loader-dropped entries occur.
+func c04DroppedLabels(cs c04Case, labels map[string]bool) {
+	for _, l := range cs.Image.Layers {
+		type pe struct {
+			p    string
+			drop bool
+			dir  bool
+		}
+		var es []pe
+		for _, e := range l.Entries {
+			op := overlay.Interpret(e)
+			if op.Kind == overlay.OpSkip {
+				es = append(es, pe{})
+				continue
+			}
+			p := op.Path
+			switch op.Kind {
+			case overlay.OpWhiteout:
+				p = path.Join(path.Dir(p), tarimg.WhiteoutPrefix+path.Base(p))
+			case overlay.OpOpaque:
+				p = path.Join(p, tarimg.OpaqueName)
+			}
+			es = append(es, pe{p: p, drop: cs.dropped(e), dir: e.Kind == tarimg.KindDir})
+		}
+		for i, e := range es {
+			if !e.drop {
+				continue
+			}
+			if l.Entries[i].Kind == tarimg.KindSymlink {
+				labels["dropped_escaping_symlink"] = true
+			} else {
+				labels["dropped_oversize_file"] = true
+			}
+			d := path.Dir(e.p)
+			if d == "/" {
+				labels["dropped_at_root"] = true
+				continue
+			}
+			// is the directory only implied, and nothing at or beneath it came earlier?
+			implied := true
+			for j, o := range es {
+				if o.p == "" || j == i {
+					continue
+				}
+				if o.p == d && o.dir {
+					implied = false
+				}
+				if j < i && !o.drop && (o.p == d || overlay.Under(o.p, d)) {
+					implied = false
+				}
+			}
+			if !implied {
+				labels["dropped_in_populated_dir"] = true
+				continue
+			}
+			if i+1 < len(es) && es[i+1].p != "" && !es[i+1].drop && path.Dir(es[i+1].p) == d {
+				later := false
+				for j := i + 2; j < len(es); j++ {
+					if es[j].p != "" && !es[j].drop && (es[j].p == d || overlay.Under(es[j].p, d)) {
+						later = true
+					}
+				}
+				if later {
+					labels["dropped_first_in_implied_dir_then_sibling_then_more"] = true
+				} else {
+					labels["dropped_first_in_implied_dir_then_sibling"] = true
+				}
+			} else {
+				labels["dropped_first_in_implied_dir_other"] = true
+			}
+		}
+	}
+}
+
 func dirPerm(l tarimg.Layer, p string) fs.FileMode {
 	for _, e := range l.Entries {
 		if op := overlay.Interpret(e); op.Kind == overlay.OpPut && op.Path == p {
@@ -450,6 +573,11 @@ func statAgainst(fi fs.FileInfo, err error, w want) error {
 		}
 		if !errors.Is(err, fs.ErrNotExist) {
 			return fmt.Errorf("fails with %q which is not fs.ErrNotExist, expected %v", err, w)
+		}
+	case overlay.Escape:
+		// a link that leaves the image root must not be followed: any error will do
+		if err == nil {
+			return fmt.Errorf("succeeds with %s although the link chain %s leaves the image root", describeInfo(fi), strings.Join(w.r.Trail, " -> "))
 		}
 	default:
 		if err == nil {
@@ -792,7 +920,12 @@ func propC04(cs c04Case) (ev.Outcome, error) {
 	if err != nil {
 		return out, fmt.Errorf("FromV1Image fails on a well-formed image: %w", err)
 	}
+	// want: the overlay of everything the tars contain; wantMust: the overlay without the
+	// entries the loader drops. A dropped entry (and a directory only it implies) may be
+	// absent; everything else has to be there.
+	eff, hasDropped := cs.effective()
 	want := overlay.ChainViews(cs.Image)
+	wantMust := overlay.ChainViews(eff.Image)
 	if len(ld.Chains) != len(want) {
 		return out, fmt.Errorf("image has %d chain layers, expected %d (history %+v, %d tar layers)", len(ld.Chains), len(want), cs.Image.EffectiveHistory(), len(cs.Image.Layers))
 	}
@@ -802,6 +935,13 @@ func propC04(cs c04Case) (ev.Outcome, error) {
 		vp := viewPair{must: want[i], may: want[i], exact: true}
 		if cs.UseRequirer {
 			vp = restrict(want[i], reqSet, i == len(want)-1)
+		}
+		if hasDropped {
+			vp = viewPair{must: wantMust[i], may: want[i]}
+			if cs.UseRequirer {
+				vp.must = restrict(wantMust[i], reqSet, i == len(want)-1).must
+				vp.may = restrict(want[i], reqSet, i == len(want)-1).may
+			}
 		}
 		if ld.Chains[i].Index() != i {
 			return out, fmt.Errorf("chain layer %d reports Index() = %d", i, ld.Chains[i].Index())
@@ -821,8 +961,8 @@ func propC04(cs c04Case) (ev.Outcome, error) {
 	}
 	// --- squashed on-disk unpacking of the same v1.Image
 	final := overlay.NewView()
-	if n := len(cs.Image.Layers); n > 0 {
-		final = overlay.Views(cs.Image.Layers)[n-1]
+	if n := len(eff.Image.Layers); n > 0 {
+		final = overlay.Views(eff.Image.Layers)[n-1]
 	}
 	if uerr := c04CheckUnpack(cs, ld, final, requirer, reqSet); uerr != nil {
 		return out, uerr
@@ -836,7 +976,13 @@ func c04CheckUnpack(cs c04Case, ld *loaded, final overlay.View, requirer require
 		return fmt.Errorf("harness: %w", err)
 	}
 	defer os.RemoveAll(dir)
-	u, err := unpack.NewUnpacker(unpack.DefaultUnpackerConfig().WithRequirer(requirer))
+	ucfg := unpack.DefaultUnpackerConfig().WithRequirer(requirer)
+	if cs.SizeLimit > 0 {
+		// the same per-file limit as the views (the generator keeps dropped files strictly
+		// above it: the unpacker skips "larger than", the loader "at least")
+		ucfg = ucfg.WithMaxFileBytes(int64(cs.SizeLimit))
+	}
+	u, err := unpack.NewUnpacker(ucfg)
 	if err != nil {
 		return fmt.Errorf("harness: NewUnpacker: %w", err)
 	}
@@ -962,6 +1108,100 @@ func c04DrawTarget(t *rapid.T, lower overlay.View, from string) string {
 	return r
 }
 
+// c04DropLimit is the per-file byte limit of the cases that contain oversize files: every
+// ordinary generated file is shorter (at most ~45 bytes), every oversize file longer.
+const c04DropLimit = 64
+
+// c04DrawDropGroup draws a few adjacent entries around one that the loader drops (a symlink
+// whose target leaves the image root, or a file above the per-file limit), all inside a
+// directory D = <Q>/n<i>[/n<j>] that nothing else in the image mentions, so that D is only
+// implied. Shapes: dropped entry then a sibling in the same directory (the interesting one:
+// the sibling still needs its parents), sibling then dropped entry, dropped entry alone,
+// dropped entry then an entry one level deeper; optionally preceded by explicit entries for
+// the ancestors of D.
+func c04DrawDropGroup(t *rapid.T, lower overlay.View, k, dropMode int, fresh *int, style string) []tarimg.Entry {
+	name := func() string { *fresh++; return fmt.Sprintf("n%d", *fresh) }
+	// the directory Q that D hangs in: the root, a directory of the lower view, or a fresh path
+	q := ""
+	switch rapid.IntRange(0, 3).Draw(t, "drop_parent") {
+	case 0:
+	case 1, 2:
+		var dirs []string
+		for _, p := range lower.Paths() {
+			if n := lower[p]; p != "/" && n.Kind == overlay.Dir && overlay.Depth(p) <= 2 {
+				dirs = append(dirs, strings.TrimPrefix(p, "/"))
+			}
+		}
+		if len(dirs) > 0 {
+			q = rapid.SampledFrom(dirs).Draw(t, "drop_parent_dir")
+		}
+	default:
+		q = c04DrawFreshPath(t)
+		for strings.Count(q, "/") > 1 {
+			q = path.Dir(q)
+		}
+	}
+	// every ancestor of D must be absent or a directory below (no type change through a
+	// dropped entry: what that would mean is not specified)
+	for a := q; a != "" && a != "."; a = path.Dir(a) {
+		if n, ok := lower["/"+a]; ok && n.Kind != overlay.Dir {
+			q = ""
+			break
+		}
+	}
+	d := path.Join(q, name())
+	if rapid.IntRange(0, 3).Draw(t, "drop_two_levels") == 0 {
+		d = path.Join(d, name())
+	}
+	var out []tarimg.Entry
+	if rapid.IntRange(0, 2).Draw(t, "drop_explicit_ancestors") == 0 {
+		var anc []string
+		for a := path.Dir(d); a != "." && a != "/"; a = path.Dir(a) {
+			anc = append([]string{a}, anc...)
+		}
+		for _, a := range anc {
+			mode := int64(0o755)
+			if n, ok := lower["/"+a]; ok && n.Kind == overlay.Dir && !n.Implicit {
+				mode = int64(n.Mode.Perm())
+			}
+			out = append(out, tarimg.Entry{Kind: tarimg.KindDir, Path: a, Mode: mode, Style: style})
+		}
+	}
+	dp := path.Join(d, name())
+	var dropped tarimg.Entry
+	if dropMode == 2 && rapid.Bool().Draw(t, "drop_oversize") {
+		dropped = tarimg.Entry{Kind: tarimg.KindFile, Path: dp, Mode: 0o644, Style: style,
+			Content: fmt.Sprintf("L%d:%s:", k, dp) + strings.Repeat("X", c04DropLimit+rapid.IntRange(1, 16).Draw(t, "drop_oversize_by"))}
+	} else {
+		ups := strings.Repeat("../", strings.Count(dp, "/")+1+rapid.IntRange(0, 1).Draw(t, "drop_extra_up"))
+		target := ups + "outside"
+		if rapid.IntRange(0, 3).Draw(t, "drop_abs_target") == 0 {
+			target = "/../outside"
+		}
+		dropped = tarimg.Entry{Kind: tarimg.KindSymlink, Path: dp, Target: target, Mode: 0o777, Style: style}
+	}
+	sp := path.Join(d, name())
+	sibling := tarimg.Entry{Kind: tarimg.KindFile, Path: sp, Content: fmt.Sprintf("L%d:%s:sib", k, sp), Mode: 0o644, Style: style}
+	switch rapid.IntRange(0, 2).Draw(t, "drop_sibling_kind") {
+	case 1:
+		sibling = tarimg.Entry{Kind: tarimg.KindSymlink, Path: sp, Target: "/keep0", Mode: 0o777, Style: style}
+	}
+	switch rapid.IntRange(0, 5).Draw(t, "drop_shape") {
+	case 0, 1, 2: // dropped first, then a sibling in exactly the same directory
+		out = append(out, dropped, sibling)
+	case 3: // sibling first
+		out = append(out, sibling, dropped)
+	case 4: // alone
+		out = append(out, dropped)
+	default: // followed by an entry one level deeper
+		deep := sibling
+		deep.Path = path.Join(d, name(), path.Base(sp))
+		deep.Content = fmt.Sprintf("L%d:%s:deep", k, deep.Path)
+		out = append(out, dropped, deep)
+	}
+	return out
+}
+
 func genC04(col *ev.Collector) func(t *rapid.T) c04Case {
 	return func(t *rapid.T) c04Case {
 		cs := c04Case{Leg: "rapid"}
@@ -975,6 +1215,18 @@ func genC04(col *ev.Collector) func(t *rapid.T) c04Case {
 			}
 			return ""
 		}
+		// entries the loader legitimately drops: none / symlinks leaving the root / those plus
+		// regular files above a small per-file limit. They live under names ("n<i>") that no
+		// other entry of the image uses.
+		dropMode := 0
+		switch w := rapid.IntRange(0, 9).Draw(t, "drop_mode"); {
+		case w >= 8:
+			dropMode = 2
+			cs.SizeLimit = c04DropLimit
+		case w >= 4:
+			dropMode = 1
+		}
+		freshName := 0
 		lower := overlay.NewView()
 		for k := 0; k < nLayers; k++ {
 			cs.Image.Layers = append(cs.Image.Layers, tarimg.Layer{Format: rapid.SampledFrom(c04Formats).Draw(t, "format")})
@@ -1105,7 +1357,26 @@ func genC04(col *ev.Collector) func(t *rapid.T) c04Case {
 				// every draw was suppressed: keep the layer non-empty with a harmless file
 				L.Entries = append(L.Entries, tarimg.F(fmt.Sprintf("keep%d", k), "k", 0o644))
 			}
-			lower = overlay.Apply(lower, *L, k)
+			// a group of adjacent entries around a loader-dropped one, inserted at a drawn
+			// position AFTER the order was fixed, so that its members stay neighbours
+			if dropMode > 0 && rapid.IntRange(0, 2).Draw(t, "drop_group") != 0 {
+				style := layerStyle
+				if style == tarimg.StyleAbs && col.IsKnown(clsAbsName) {
+					style = tarimg.StyleDot
+				}
+				group := c04DrawDropGroup(t, lower, k, dropMode, &freshName, style)
+				at := rapid.IntRange(0, len(L.Entries)).Draw(t, "drop_group_at")
+				prev := append([]tarimg.Entry{}, L.Entries...)
+				L.Entries = append(append(append([]tarimg.Entry{}, prev[:at]...), group...), prev[at:]...)
+				if !overlay.Consistent(*L) {
+					L.Entries = prev
+				} else if cl := known(cs); cl != "" {
+					col.Excluded(cl)
+					L.Entries = prev
+				}
+			}
+			effCase, _ := cs.effective()
+			lower = overlay.Apply(lower, effCase.Image.Layers[k], k)
 		}
 		// history arrangement
 		switch rapid.IntRange(0, 9).Draw(t, "history") {
@@ -1178,7 +1449,7 @@ func genC04(col *ev.Collector) func(t *rapid.T) c04Case {
 		}
 		// size-limit configuration: a per-file byte limit just above the largest file must
 		// change nothing (no file reaches it)
-		if rapid.IntRange(0, 2).Draw(t, "size_limit") == 0 {
+		if rapid.IntRange(0, 2).Draw(t, "size_limit") == 0 && cs.SizeLimit == 0 {
 			cs.SizeLimitSlack = rapid.IntRange(1, 8).Draw(t, "size_limit_slack")
 		}
 		return cs
